@@ -5,6 +5,7 @@ import (
 	"fmt"
 	"io"
 	"net"
+	"os"
 	"strings"
 	"sync"
 	"testing"
@@ -38,7 +39,32 @@ type Stack struct {
 	// EagerAccept: like gRPC's Serve loop, ask for the next connection as soon as Accept has
 	// returned one, i.e. while the handshake on that one is still running
 	EagerAccept bool
-	closeOnce   sync.Once
+	// CutClientWritesAfter > 0: on the first attempt of the next ConnectRetry everything the client
+	// writes to its mailbox connection beyond that many bytes is swallowed (the relay loses it):
+	// with 50, act 1 of the XX handshake arrives and act 3 does not.
+	CutClientWritesAfter int
+	closeOnce            sync.Once
+}
+
+// cutConn passes the first `left` bytes written and pretends to write the rest.
+type cutConn struct {
+	net.Conn
+	left int
+}
+
+func (c *cutConn) Write(b []byte) (int, error) {
+	n := len(b)
+	if c.left <= 0 {
+		return n, nil
+	}
+	if len(b) > c.left {
+		b = b[:c.left]
+	}
+	c.left -= len(b)
+	if _, err := c.Conn.Write(b); err != nil {
+		return 0, err
+	}
+	return n, nil
 }
 
 type PendingConn struct {
@@ -87,6 +113,12 @@ func (s *Stack) ConnectRetry(attempts int) (srv, cli SecureConn, tries int) {
 			return true
 		default:
 			return time.Now().After(deadline)
+		}
+	}
+	t00 := time.Now()
+	dbg := func(isServer bool, f string, a ...interface{}) {
+		if os.Getenv("VERIF_DBG_STACK") != "" {
+			fmt.Printf("  [%8v %s] %s\n", time.Since(t00).Round(time.Millisecond), map[bool]string{true: "srv", false: "cli"}[isServer], fmt.Sprintf(f, a...))
 		}
 	}
 	side := func(isServer bool) {
@@ -145,6 +177,7 @@ func (s *Stack) ConnectRetry(attempts int) (srv, cli SecureConn, tries int) {
 				tries++
 			}
 			mu.Unlock()
+			dbg(isServer, "attempt %d: accept/dial returned err=%v", a, err)
 			if err != nil {
 				mu.Lock()
 				if isServer {
@@ -169,7 +202,12 @@ func (s *Stack) ConnectRetry(attempts int) (srv, cli SecureConn, tries int) {
 			if isServer {
 				nc, _, err = mailbox.NewNoiseGrpcConn(s.SrvData).ServerHandshake(c)
 			} else {
-				nc, _, err = mailbox.NewNoiseGrpcConn(s.CliData).ClientHandshake(s.Ctx, "", c)
+				var hc net.Conn = c
+				if a == 0 && s.CutClientWritesAfter > 0 {
+					hc = &cutConn{Conn: c, left: s.CutClientWritesAfter}
+					s.CutClientWritesAfter = 0
+				}
+				nc, _, err = mailbox.NewNoiseGrpcConn(s.CliData).ClientHandshake(s.Ctx, "", hc)
 			}
 			if err == nil {
 				// like gRPC's connection preface: the two ends confirm to each other that
@@ -194,9 +232,11 @@ func (s *Stack) ConnectRetry(attempts int) (srv, cli SecureConn, tries int) {
 					err = fmt.Errorf("preface: %w", err)
 				}
 			}
+			dbg(isServer, "attempt %d: handshake+preface err=%v", a, err)
 			mu.Lock()
 			if err != nil {
 				c.Close()
+				dbg(isServer, "attempt %d: closed", a)
 				if isServer {
 					srv = SecureConn{Err: fmt.Errorf("server handshake: %w", err)}
 				} else {
